@@ -9,7 +9,7 @@ using namespace vf;
 
 namespace {
 
-enum { K_BYTES = 0, K_NEST = 1, K_FAULT = 2 };
+enum { K_BYTES = 0, K_NEST = 1, K_FAULT = 2, K_REUSE = 3 };
 enum Mode { M_SAFETY, M_DECODE, M_REJECT, M_ENDPTR };
 
 const uint8_t SIGMA_B[] = { '[', ']', '{', '}', ',', ':', '"', '\\', '/', 'u', 'D', '8', 'C', '0', '1', '9', '-', '+', '.', 'e', 'E',
@@ -67,19 +67,21 @@ struct XParse : Engine {
         for (long p = 0; p <= pc; p++) st.push_back("pieces" + std::to_string(p));
         st.push_back("nest");
         if (mode == M_DECODE || mode == M_SAFETY) { st.push_back("u16"); st.push_back("surrogates"); st.push_back("numbers"); st.push_back("digits"); st.push_back("trees"); }
-        if (mode != M_DECODE) { st.push_back("nearmiss"); st.push_back("edits"); st.push_back("faults"); }
+        if (mode != M_DECODE) { st.push_back("nearmiss"); st.push_back("edits"); st.push_back("faults"); st.push_back("reuse"); }
+        st.push_back("hooked");
         return st;
     }
 
     // ---------------------------------------------------------------- enumeration
-    void emit(const std::string& s) { if (!pool_take()) return; static Case c; c.kind = K_BYTES; c.set(s); if (s.size() > sizeof c.data) return; pool_run(c); }
+    int hooked = 0;
+    void emit(const std::string& s) { if (!pool_take()) return; static Case c; c.kind = K_BYTES; c.iv[5] = hooked; c.set(s); if (s.size() > sizeof c.data) return; pool_run(c); }
     void enumerate(const std::string& stage) override {
         init();
         if (stage.compare(0, 5, "bytes") == 0) {
             int k = atoi(stage.c_str() + 5); const int A = sizeof SIGMA_B;
             std::vector<int> od(k, 0); std::string s((size_t)k, 0);
             for (;;) {
-                if (pool_take()) { for (int i = 0; i < k; i++) s[i] = (char)SIGMA_B[od[i]]; static Case c; c.kind = K_BYTES; c.set(s); pool_run(c); }
+                if (pool_take()) { for (int i = 0; i < k; i++) s[i] = (char)SIGMA_B[od[i]]; static Case c; c.kind = K_BYTES; c.iv[5] = hooked; c.set(s); pool_run(c); }
                 int i = k - 1; while (i >= 0 && ++od[i] == A) od[i--] = 0;
                 if (i < 0) break;
             }
@@ -87,7 +89,7 @@ struct XParse : Engine {
             int m = atoi(stage.c_str() + 6); const int A = sizeof SIGMA_T / sizeof *SIGMA_T;
             std::vector<int> od(m, 0);
             for (;;) {
-                if (pool_take()) { std::string s; for (int i = 0; i < m; i++) s += SIGMA_T[od[i]]; static Case c; c.kind = K_BYTES; c.set(s); pool_run(c); }
+                if (pool_take()) { std::string s; for (int i = 0; i < m; i++) s += SIGMA_T[od[i]]; static Case c; c.kind = K_BYTES; c.iv[5] = hooked; c.set(s); pool_run(c); }
                 int i = m - 1; while (i >= 0 && ++od[i] == A) od[i--] = 0;
                 if (i < 0) break;
             }
@@ -101,7 +103,7 @@ struct XParse : Engine {
                 for (int ctx = 0; ctx < 6; ctx++) for (int closed = 0; closed < 2; closed++) {
                     if (!pool_take()) continue;
                     std::string s = std::string(pre[ctx]) + "\"" + body + (closed ? "\"" : "") + (closed ? post[ctx] : "");
-                    static Case c; c.kind = K_BYTES; c.set(s); pool_run(c);
+                    static Case c; c.kind = K_BYTES; c.iv[5] = hooked; c.set(s); pool_run(c);
                 }
                 int i = m - 1; while (i >= 0 && ++od[i] == NPIECES) od[i--] = 0;
                 if (i < 0) break;
@@ -207,6 +209,13 @@ struct XParse : Engine {
                                           "{:1}", "{\"a\":1,}", "{,\"a\":1}", "{1:1}", "{a:1}", "{\"a\" 1}", "{\"a\"::1}", "[1 2]", "[1:2]", "{\"a\":1 \"b\":2}", "{\"a\":1:2}", "[1]]", "{}}", "[}", "{]", "[1}", "{\"a\":1]", "\\u0041", "nan", "inf", "tRue", "\"\\u00\"", "\"\\uD800\"", "\"\\uDC00\\uD800\"", "\"\\uZZZZ\"", "\"\\u00G1\"", "\"\\u 041\"", "\"\\u-123\"", "\"\\u+123\"", "\"\\u0x41\"", "\"\\U0041\"", "\"\\a\"", "\"\\'\"", "\"\\0\"", "\"\\\n\"", "\"\\uD800\\n\"", "\"\\uD800\\uD800\"", "\"\\uD800\\u0041\"", "\"\\uD800\\uE000\"", "\"\\uD800\\uDBFF\"" };
             static const char* ctxs[] = { "%s", "[%s]", "[1,%s]", "[%s,1]", "{\"a\":%s}", "{%s:1}", "{\"a\" %s}", " %s ", "[[%s]]", "{\"a\":1,%s}", "{\"a\":1,\"b\":%s}", "%s ", "[1,%s", "{\"a\":[%s]}" };
             for (auto v : vals) for (auto cx : ctxs) { if (!pool_take()) continue; std::string s = cx; size_t p = s.find("%s"); s.replace(p, 2, v); emit_now(s); emit_now_extra(s + std::string(1, '\0')); }
+        } else if (stage == "hooked") {
+            // the same inputs with user-supplied allocation functions installed (no realloc available to the library)
+            hooked = 1; enumerate("shortcuts"); enumerate("pieces1"); enumerate("pieces2"); enumerate("tokens3"); if (mode != M_DECODE) enumerate("nearmiss"); hooked = 0;
+        } else if (stage == "reuse") {
+            // the same memory parsed twice with different contents (a shorter / longer / shifted text written over the previous one): the second result must not depend on the first call
+            static const char* T[] = { "[1, 2]", "[1,", "[2,3]", " [2,", "{\"a\":1}", "{\"a\":", "1", "\"ab\"", "\"a", "[]", "", "[1,2,3,4,5,6]", "nul", "null", "[true,false]", "[1]  x", "12345", "-" };
+            for (auto a : T) for (auto b : T) { if (!pool_take()) continue; for (int k = 0; k <= 4; k++) { static Case c; c.kind = K_REUSE; c.iv[1] = k; c.iv[5] = 0; c.set(std::string(a) + "\x1f" + b); pool_run(c); } }
         } else if (stage == "faults") {
             // every allocation request of a parse refused in turn, for all token sequences up to 3 tokens and the hand-written texts, through every entry point:
             // a parse that fails for lack of memory is a failed parse like any other (NULL, nothing left allocated, error position reported inside the buffer)
@@ -230,7 +239,7 @@ struct XParse : Engine {
             }
         }
     }
-    void emit_now(const std::string& s) { static Case c; if (s.size() > sizeof c.data) return; c.kind = K_BYTES; c.set(s); pool_run(c); }
+    void emit_now(const std::string& s) { static Case c; if (s.size() > sizeof c.data) return; c.kind = K_BYTES; c.iv[5] = hooked; c.set(s); pool_run(c); }
     void emit_now_extra(const std::string& s) { emit_now(s); }
     void load_seeds() {
         if (!seeds.empty()) return;
@@ -401,8 +410,27 @@ struct XParse : Engine {
         }
         ctr().compared++; ctr().nontrivial++;
     }
+    void run_reuse(const std::string& t1, const std::string& t2, int k) {
+        static const int sv[] = { 5, 6, 7, 8, 9 }; static const char* const sl[] = { "Parse", "ParseWithOpts(end,0)", "ParseWithOpts(end,1)", "ParseWithOpts(NULL,0)", "ParseWithOpts(NULL,1)" };
+        uint8_t* base = gm.rw + 8192; memset(base, 0, 256); memcpy(base, t1.data(), t1.size());
+        for (int i = 0; i < 5; i++) { Res r = call(sv[i], base, t1.size() + 1, sl[i]); drop(r, sl[i], false); }
+        uint8_t* p2 = base + k; memcpy(p2, t2.data(), t2.size()); p2[t2.size()] = 0;   // whatever followed in the old text stays behind the new terminator
+        std::string bz = t2; bz.push_back('\0');
+        for (int i = 0; i < 5; i++) {
+            Res r = call(sv[i], p2, t2.size() + 1, sl[i]);
+            const uint8_t* fresh; gm.place_end(bz.data(), bz.size(), &fresh); Res f = call(sv[i], fresh, bz.size(), sl[i]); ctr().compared++;
+            long re = r.end == SENT() ? -2 : (long)(r.end - (const char*)p2), fe = f.end == SENT() ? -2 : (long)(f.end - (const char*)fresh), rerr = r.err ? (long)(r.err - (const char*)p2) : -1, ferr = f.err ? (long)(f.err - (const char*)fresh) : -1;
+            if (r.ok != f.ok || r.text != f.text || re != fe || rerr != ferr) {
+                std::string m = std::string(sl[i]) + " on memory that held \"" + printable(t1) + "\" before (new text written at offset " + std::to_string(k) + "): " + (r.ok ? "tree " + r.text : std::string("NULL")) + " end " + std::to_string(re) + " error position " + std::to_string(rerr) + "; the same text in fresh memory: " + (f.ok ? "tree " + f.text : std::string("NULL")) + " end " + std::to_string(fe) + " error position " + std::to_string(ferr);
+                V("safety", "result-depends-on-earlier-call", m); V("endptr", "result-depends-on-earlier-call", m); V("decode", "result-depends-on-earlier-call", m); V("reject", "result-depends-on-earlier-call", m); }
+            drop(r, sl[i], false); drop(f, sl[i], false);
+        }
+        ctr().nontrivial++;
+    }
     void run_case(const Case& c, bool vb) override {
         init(); verbose = vb;
+        if (c.kind == K_REUSE) { std::string x = c.str(); size_t sep = x.find('\x1f'); if (sep == std::string::npos) return; std::string t1 = x.substr(0, sep), t2 = x.substr(sep + 1); cur_n = t2.size(); curdesc = "\"" + printable(t2) + "\""; long l0 = ledger_live(); run_reuse(t1, t2, (int)c.iv[1]); if (ledger_live() != l0) V("safety", "leak", "allocation balance changed"); return; }
+        struct HookScope { bool on; HookScope(bool o) : on(o) { if (on) install_hooks(HK_CUSTOM); } ~HookScope() { if (on) install_hooks(HK_DEFAULT); } } hookscope(c.kind == K_BYTES && c.iv[5] == 1);
         if (c.kind == K_FAULT) { std::string fb = c.str(); cur_n = fb.size(); curdesc = "\"" + printable(fb.substr(0, 120)) + "\""; uint64_t e0 = L.errors; long l0 = ledger_live(); run_faults(fb); if (L.errors != e0) V("safety", "allocator-misuse", L.first_error); if (ledger_live() != l0) V("safety", "leak", "allocation balance after the fault runs is " + std::to_string(ledger_live() - l0)); return; }
         std::string b = c.kind == K_NEST ? nest_bytes((int)c.iv[1], (long)c.iv[2]) : c.str();
         size_t n = b.size(); cur_n = n;
